@@ -81,6 +81,9 @@ def stage(ctx, prop=None, quick=False):
     files = [f for f in (FILES.get(prop, []) if quick or prop not in ("C01", "C14", "C15") else ALLFAST) if not (quick and f in SLOW)]
     if not files:
         return
+    if not os.path.isdir(os.path.join(REPO, "tests")):
+        ctx.notes["repo_test_traces"] = "no tests/ directory in the tree under test: stage skipped"
+        return
     recs, summary, present = record(files)
     end = [r for r in recs if r["prop"] == "END"]
     errs = [r for r in recs if r["prop"] == "ERR"]
